@@ -1,10 +1,221 @@
 import TempestVerif.Drv.Util
-/- line-protocol handlers of property C17 (stub: no commands yet) -/
+import TempestVerif.Model.StateMgr
+/-
+  Line protocol of property C17 (StateManager reference model).  A whole op sequence travels in one line:
+
+      sm.run ops=<op>;<op>;…        →   <digest>|<digest>|…      (one digest per op)
+
+  op syntax (fields separated by `:`; no spaces, no `=`):
+      set:<key>:<arg>:<copy01>            set_current(key, arg, copy)
+      upd:<key>~<arg>,<key>~<arg>…:<copy01>   update_current({…}, copy)       (`-` = empty dict)
+      get:<key> | getall                  get_current(key) | get_current()
+      geth:<key>:<idx|*>:<flat01>         get_history(key, idx, flat)
+      getl:<key>                          get_last_history(key)
+      commit:<strict01>                   commit_current_to_history(strict)
+      results | todict                    compute_results() | to_dict()
+      imp:<i>:<mode>                      update_from_dict built from the export returned by op i (a `todict`);
+                                          mode ⊆ {c,h,z}: c = "_current" section, h = "_history" section,
+                                          z = additionally a history key "zz" (not a valid history key) ↦ []
+      scr:<i>:<val>                       the caller overwrites EVERY array it obtained in op i with `val`
+  arg:  N (None) | S<int> (scalar) | A<int>.<int>.… (new array with this payload; `A` = empty) |
+        H<i> (the single array obtained in op i)
+  Anything else (or an `H<i>`/`imp:<i>` whose op i does not qualify) answers `bad-op` for that op and leaves the state alone.
+
+  digest:  r=<result>#c=<current>#h=<history>#R=<results>   with keys sorted, payloads only:
+      N | S<int> | A<int>.<int>… | O (unreadable cell);  result: U | V:<pval> | D:<dict> | X:<dict>;<hist> | E:<err>
+  `None` slots / empty history lists / empty result arrays are omitted and `;n=<number of keys>` is appended; `logw` is
+  reported by length.  `compute_results()` is only exercised in well-formed states (`wellFormed`), otherwise `skip`.
+  The `R=` section is obtained by really performing `compute_results()` (it fills the cache), as the harness does.
+-/
 namespace Drv.C17
-open Drv
+open Drv Model.StateMgr
+
+def showContent (c : Content) : String := "A" ++ ".".intercalate (c.map toString)
+
+def showPVal : PVal → String
+  | .none => "N"
+  | .scalar x => s!"S{x}"
+  | .arr c => showContent c
+  | .opaque => "O"
+
+def sortKeys {β : Type} (l : List (String × β)) : List (String × β) := l.mergeSort (fun a b => decide (a.1 ≤ b.1))
+
+/-- compact: `None` slots are omitted, the number of keys is appended -/
+def showDict (d : List (Key × PVal)) : String :=
+  ",".intercalate (((sortKeys d).filter fun kv => kv.2 != PVal.none).map fun kv => s!"{kv.1}:{showPVal kv.2}")
+    ++ s!";n={d.length}"
+
+/-- compact: keys with an empty list are omitted, the number of keys is appended -/
+def showHist (d : List (Key × List PVal)) : String :=
+  ",".intercalate (((sortKeys d).filter fun kv => !kv.2.isEmpty).map fun kv => s!"{kv.1}:{"/".intercalate (kv.2.map showPVal)}")
+    ++ s!";n={d.length}"
+
+def showErr : Err → String
+  | .valueError => "value"
+  | .indexError => "index"
+  | .keyError => "key"
+  | .illegal => "illegal"
+
+def showPRes : PRes → String
+  | .unit => "U"
+  | .val v => s!"V:{showPVal v}"
+  | .dict d => s!"D:{showDict d}"
+  | .export c h => s!"X:{showDict c};{showHist h}"
+  | .err e => s!"E:{showErr e}"
+
+/-- results section: `logw` is reported by length only (its numbers belong to C04) -/
+def showResults : PRes → String
+  | .dict d => showDict (d.map fun kv => if kv.1 == "logw" then
+      (kv.1, match kv.2 with | .arr c => PVal.scalar c.length | v => v)
+      else (kv.1, if kv.2 == PVal.arr [] then PVal.none else kv.2))
+  | r => showPRes r
+
+def Val.isScalar : Val → Bool
+  | .scalar _ => true
+  | _ => false
+
+/-- `compute_results()` is only exercised when `compute_logw_and_logz` is well defined: as many `logz` and
+    `logl` batches as `beta` entries, `beta`/`logz` scalars, `logl` arrays (what the sampler guarantees) -/
+def wellFormed (s : State) : Bool :=
+  match lookup "beta" s.history, lookup "logz" s.history, lookup "logl" s.history with
+  | some b, some z, some l =>
+    b.isEmpty || (b.all Val.isScalar && z.all Val.isScalar && l.all Val.isRef
+                  && z.length == b.length && l.length == b.length)
+  | _, _, _ => false
+
+/-- what one executed op left behind for later `scr` / `H` / `imp` references -/
+structure Rec where
+  addrs : List Addr
+  res : Res
+
+structure Sim where
+  s : State
+  recs : List Rec      -- one per op, in order
+  out : List String
+
+def parseArg (recs : List Rec) (t : String) : Option Arg :=
+  if t == "N" then some .none else
+  match t.toList with
+  | 'S' :: r => (String.ofList r).toInt?.map Arg.scalar
+  | 'A' :: r =>
+    let body := String.ofList r
+    if body.isEmpty then some (.fresh []) else
+    ((body.splitOn ".").mapM String.toInt?).map Arg.fresh
+  | 'H' :: r =>
+    match (String.ofList r).toNat? with
+    | some i => match recs[i]? with
+      | some rc => match rc.addrs with
+        | [a] => some (.held a)
+        | _ => none
+      | none => none
+    | none => none
+  | _ => none
+
+def parseBool (t : String) : Option Bool :=
+  if t == "1" then some true else if t == "0" then some false else none
+
+def parseKvs (recs : List Rec) (t : String) : Option (List (Key × Arg)) :=
+  if t == "-" then some [] else
+  (t.splitOn ",").mapM fun item => match item.splitOn "~" with
+    | [k, a] => (parseArg recs a).map fun x => (k, x)
+    | _ => none
+
+def valToArg : Val → Arg
+  | .none => .none
+  | .scalar x => .scalar x
+  | .ref a => .held a
+
+def parseOp (recs : List Rec) (t : String) : Option Op :=
+  match t.splitOn ":" with
+  | ["set", k, a, c] => match parseArg recs a, parseBool c with
+    | some x, some b => some (.setCurrent k x b)
+    | _, _ => none
+  | ["upd", kvs, c] => match parseKvs recs kvs, parseBool c with
+    | some l, some b => some (.updateCurrent l b)
+    | _, _ => none
+  | ["get", k] => some (.getCurrent (some k))
+  | ["getall"] => some (.getCurrent none)
+  | ["geth", k, i, f] => match parseBool f with
+    | some b => if i == "*" then some (.getHistory k none b) else i.toInt?.map fun n => .getHistory k (some n) b
+    | none => none
+  | ["getl", k] => some (.getLastHistory k)
+  | ["commit", st] => (parseBool st).map Op.commit
+  | ["results"] => some .computeResults
+  | ["todict"] => some .toDict
+  | ["imp", i, mode] =>
+    if !(mode.toList.all fun ch => ch == 'c' || ch == 'h' || ch == 'z') then none else
+    match i.toNat? with
+    | some n => match recs[n]? with
+      | some rc => match rc.res with
+        | .export c h =>
+          let cur := if mode.toList.contains 'c' then some (c.map fun kv => (kv.1, valToArg kv.2)) else none
+          let hist0 : List (Key × List Arg) := h.map fun kv => (kv.1, kv.2.map valToArg)
+          let hist1 := if mode.toList.contains 'z' then hist0 ++ [("zz", [])] else hist0
+          let hist := if mode.toList.contains 'h' then some hist1
+                      else if mode.toList.contains 'z' then some [("zz", [])] else none
+          some (.updateFromDict cur hist)
+        | _ => none
+      | none => none
+    | none => none
+  | _ => none
+
+def digest (r : String) (s : State) : State × String :=
+  if !wellFormed s then
+    let hist := (derefHist s.heap s.history).filter fun kv => historyKeys.contains kv.1
+    (s, s!"r={r}#c={showDict (derefDict s.heap s.current)}#h={showHist hist}#R=skip") else
+  let q := step s .computeResults
+  let o : Obs := { current := derefDict s.heap s.current, history := derefHist s.heap s.history,
+                   results := derefRes q.1.heap q.2 }
+  let hist := o.history.filter fun kv => historyKeys.contains kv.1
+  (q.1, s!"r={r}#c={showDict o.current}#h={showHist hist}#R={showResults o.results}")
+
+/-- `scr:i:val` — overwrite every array obtained in op i (same length, every entry = val) -/
+def scribbleAll (s : State) (addrs : List Addr) (val : Int) : State :=
+  addrs.foldl (fun st a =>
+    match rd st.heap a with
+    | some c => (step st (.scribble a (c.map fun _ => val))).1
+    | none => st) s
+
+def exec (sim : Sim) (t : String) : Sim :=
+  let bad : Sim :=
+    let d := digest "bad-op" sim.s
+    { s := d.1, recs := sim.recs ++ [⟨[], .unit⟩], out := sim.out ++ [d.2] }
+  match t.splitOn ":" with
+  | ["scr", i, v] =>
+    match i.toNat?, v.toInt? with
+    | some n, some val =>
+      match sim.recs[n]? with
+      | some rc =>
+        let s1 := scribbleAll sim.s rc.addrs val
+        let d := digest "U" s1
+        { s := d.1, recs := sim.recs ++ [⟨[], .unit⟩], out := sim.out ++ [d.2] }
+      | none => bad
+    | _, _ => bad
+  | _ =>
+    match parseOp sim.recs t with
+    | none => bad
+    | some op =>
+      if (match op with | .computeResults => !wellFormed sim.s | _ => false) then
+        let d := digest "skip" sim.s
+        { s := d.1, recs := sim.recs ++ [⟨[], .unit⟩], out := sim.out ++ [d.2] } else
+      let q := step sim.s op
+      let newAddrs := q.1.escaped.take (q.1.escaped.length - sim.s.escaped.length)
+      let rs := match op with
+        | .computeResults => (match derefRes q.1.heap q.2 with | .dict d => "D:" ++ showResults (.dict d) | r => showPRes r)
+        | _ => showPRes (derefRes q.1.heap q.2)
+      let d := digest rs q.1
+      { s := d.1, recs := sim.recs ++ [⟨newAddrs, q.2⟩], out := sim.out ++ [d.2] }
+
+def runOps (ops : String) : String :=
+  let toks := if ops == "-" then [] else ops.splitOn ";"
+  let sim := toks.foldl exec { s := init, recs := [], out := [] }
+  if sim.out.isEmpty then "-" else "|".intercalate sim.out
 
 def handle (cmd : String) (args : List (String × String)) : Option String :=
   match cmd with
+  | "sm.run" => some (match getArg args "ops" with
+      | some ops => runOps ops
+      | none => "bad-op")
   | _ => none
 
 end Drv.C17
